@@ -98,8 +98,17 @@ func c05SockConn(srv *svc.Server, cid int, seed uint64, ntransfers int) (viol []
 				bad("crash-or-close|connection closed during a valid sub-packaged conversation", fmt.Sprintf("conn %d %s", cid, log[len(log)-1]))
 				return viol, false, transfers, log
 			}
-			if rx.F != nil && rx.F.ID == 0x8001 && len(rx.F.Body) == 5 && uint16(rx.F.Body[0])<<8|uint16(rx.F.Body[1]) == ss && rx.F.Body[2] == 0 && rx.F.Body[3] == 2 {
-				break
+			if rx.F != nil && rx.F.ID == 0x8001 && len(rx.F.Body) == 5 && rx.F.Body[2] == 0 && rx.F.Body[3] == 2 {
+				es := uint16(rx.F.Body[0])<<8 | uint16(rx.F.Body[1])
+				if es == ss {
+					// the reply to a completed transfer may trail the other messages of the read that completed it (and the
+					// sentinel may share that read): a second sentinel, sent only now, closes the window for certain
+					t.Write(t.Frame(0x0002, ss-1, nil))
+					continue
+				}
+				if es == ss-1 {
+					break
+				}
 			}
 			got = append(got, rx)
 		}
